@@ -1,10 +1,11 @@
 (* C04 model driver.  Case line = the harness case line (m= c= n= enc= ent= fun= tags= repl= in=) followed by
-   the oracle table printed by the harness: F=<k>:<valuehex>:<0|1>,..  E=<texthex>:<valid>:<vof>:<filteredhex>,..
+   the oracle table printed by the harness: F=<k>:<valuehex>:<0|1>,..  E=<texthex>:<valid>:<vof>:<filteredhex>,.. (E is ignored: the encoding layer is modelled)
    A=<is_ascii_compatible>  U=<texthex>:<stop ok>:<to_utf stop hex>:<to_utf skip hex>,..  V=<utf8hex>:<ok>:<from_utf hex>,..
    Answer: v= fl= rm= es= vrm= ves=   (same fields as the harness prints before " | ") *)
 exception Missing of string
 let split_on c s = if s = "-" || s = "" then [] else String.split_on_char c s
 let field fs k = try List.assoc k fs with Not_found -> "-"
+let sel_cache : (n list, validator option) Hashtbl.t = Hashtbl.create 64
 let () = main_loop (fun toks ->
   let fs = List.filter_map (fun t ->
     match String.index_opt t '=' with
@@ -15,10 +16,6 @@ let () = main_loop (fun toks ->
   List.iter (fun e -> match String.split_on_char ':' e with
      | [k; v; b] -> Hashtbl.replace funs_tbl (int_of_string k, v) (b = "1")
      | _ -> failwith "bad F entry") (split_on ',' (field fs "F"));
-  let enc_tbl = Hashtbl.create 8 in
-  List.iter (fun e -> match String.split_on_char ':' e with
-     | [t; ev; vof; fo] -> Hashtbl.replace enc_tbl t (ev = "1", vof = "1", fo)
-     | _ -> failwith "bad E entry") (split_on ',' (field fs "E"));
   let s_tbl = Hashtbl.create 16 in
   List.iter (fun e -> match String.split_on_char ':' e with
      | [k; v; b] -> Hashtbl.replace s_tbl (int_of_string k, v) (b = "1")
@@ -44,10 +41,11 @@ let () = main_loop (fun toks ->
         (match Hashtbl.find_opt funs_tbl key with
          | Some b when b <> m -> failwith ("URI-MODEL-DIFFERS validator " ^ string_of_int ki ^ " value " ^ snd key)
          | _ -> m) in
-  let has_enc = field fs "enc" <> "-" in
-  let enc_valid x = let (ev, _, _) = (try Hashtbl.find enc_tbl (hex_of_bytes x) with Not_found -> raise (Missing ("E " ^ hex_of_bytes x))) in ev in
-  let enc_vof x = let (_, vof, fo) = (try Hashtbl.find enc_tbl (hex_of_bytes x) with Not_found -> raise (Missing ("E " ^ hex_of_bytes x))) in
-    if vof then None else Some (bytes_of_hex fo) in
+  (* the encoding layer is the model's own (coq/C04/DefsE.v over coq/C14/Defs.v), selected by the encoding name; the E= table of
+     the harness (answers of the real encoding::valid / validate_or_filter) is not consulted *)
+  let enc_name = (let e = field fs "enc" in if e = "-" then [] else
+                  List.init (String.length e) (fun i -> n_of_int (Char.code e.[i]))) in
+  let repl = n_of_int (int_of_string (field fs "repl")) in
   let compat = field fs "A" <> "0" in
   let u_tbl = Hashtbl.create 8 in
   List.iter (fun e -> match String.split_on_char ':' e with
@@ -82,10 +80,16 @@ let () = main_loop (fun toks ->
   let r = { c_xhtml = xhtml; c_comments = (field fs "c" = "1"); c_numeric = (field fs "n" = "1");
             c_entities = List.map bytes_of_hex (split_on ',' (field fs "ent")); c_tags = tags } in
   let x = bytes_of_hex (field fs "in") in
-  let v = c_validate_x r vfun has_enc compat enc_valid to_utf_stop x in
-  let (fl, rm) = c_validate_and_filter_x r vfun has_enc compat enc_vof to_utf_stop to_utf_skip from_utf_stop RemoveInvalid x in
-  let (fl2, es) = c_validate_and_filter_x r vfun has_enc compat enc_vof to_utf_stop to_utf_skip from_utf_stop EscapeInvalid x in
-  let vrm = c_validate_x r vfun has_enc compat enc_valid to_utf_stop rm in
-  let ves = c_validate_x r vfun has_enc compat enc_valid to_utf_stop es in
+  (* validate_sel / validate_and_filter_sel = validate_e / validate_and_filter_e at (has_encoding name, lookup name)
+     (Props.v: lookup_once); the look-up is done once per encoding name *)
+  let he = has_encoding enc_name in
+  let sel = (match Hashtbl.find_opt sel_cache enc_name with
+             | Some s -> s
+             | None -> let s = lookup enc_name in Hashtbl.replace sel_cache enc_name s; s) in
+  let v = c_validate_sel r vfun he sel to_utf_stop x in
+  let (fl, rm) = c_validate_and_filter_sel r vfun he sel repl to_utf_stop to_utf_skip from_utf_stop RemoveInvalid x in
+  let (fl2, es) = c_validate_and_filter_sel r vfun he sel repl to_utf_stop to_utf_skip from_utf_stop EscapeInvalid x in
+  let vrm = c_validate_sel r vfun he sel to_utf_stop rm in
+  let ves = c_validate_sel r vfun he sel to_utf_stop es in
   "v=" ^ string_of_bool v ^ " fl=" ^ string_of_bool fl ^ " rm=" ^ hex_of_bytes rm ^ " es=" ^ hex_of_bytes es
-  ^ " vrm=" ^ string_of_bool vrm ^ " ves=" ^ string_of_bool ves ^ (if fl <> fl2 then " MODEL-FLAGS-DIFFER" else ""))
+  ^ " vrm=" ^ string_of_bool vrm ^ " ves=" ^ string_of_bool ves ^ (if fl <> fl2 then " MODEL-FLAGS-DIFFER" else "") ^ (if enc_name <> [] && compat <> (sel <> None) then " MODEL-COMPAT-DIFFERS" else ""))
